@@ -22,6 +22,26 @@ CHECKS = {
          "Decides that the two analysis goroutines share no written location (sound under the over-approximating field-based abstraction), that the spawner joins before touching their results, that no package-level state is written at run time and that no source of run-to-run variation (map iteration, select, clock, randomness, environment, pointer formatting) is reachable from Compile, the builder API or main. These are the structural conditions that make generation a pure function; byte-identity itself is not observed.",
          "DESIGN.md §4 C09",
          "Trusts go/ssa and the library effect table (effects.go); assumes text/template, go/parser and go/printer are deterministic; object-insensitive: may over-report, cannot under-report for the stated obligations."),
+ "C12": ("template instantiation under all 2^5 boolean valuations (text/template/parse walk) + go/ssa: interprocedural write sets of Init's closures vs must-assignment in reset; path simulation of the sentinel; AST bound check of token-buffer reads",
+         "Decides that every per-parse variable any closure can write is re-initialised by reset on every path from state-independent values, that the one exception (token buffer) is never read beyond tokenIndex, that reset re-derives buffer and sentinel from Buffer, that parse republishes the token buffer and Size only affects capacity, and that no offset is narrowed. Sufficient structural conditions for 'Reset+Parse = fresh parser'; equality of results is implied, not observed.",
+         "DESIGN.md §4 C12",
+         "Trusts text/template/parse, go/types, go/ssa and the instantiator's model data (names only); the emitted rule functions are represented by a synthetic rule function here and by E1/E2 output in C01/C08."),
+ "C14": ("store/address-of search over go/ssa of every template instantiation and peg.peg.go; type-shape check of package-level variables",
+         "Decides instance confinement: no generated function writes a package-level variable and the only package-level variables are reference-free value tables read by element load, so two parser instances share no mutable location (sufficient for race freedom and independence, user code excluded).",
+         "DESIGN.md §4 C14",
+         "Trusts go/ssa; Go closure semantics (fresh captured variables per Init call); user state/actions excluded by the property."),
+ "C06": ("go/ssa rules on memoize/memoizedResult/add of every AST-enabled template instantiation and peg.peg.go: key provenance, value origin (fresh copy), ordered-effects check of the replay path, dominance by the strict furthest-token comparison and by the DisableMemoize test",
+         "Decides the structural conditions that make a memo hit equal to a re-run (key = (rule, begin); verdict and tokens stored faithfully; tokens copied; replay splices/advances/sets position in order; furthest-error token only moves strictly forward so replays cannot change it; memoisation can be switched off; table re-made by reset). With deterministic rules these are sufficient; the wrapper half is decided by E2.",
+         "DESIGN.md §4 C06",
+         "Trusts go/ssa and the template instantiator; assumes no side-effecting predicates (excluded by the property)."),
+ "C11": ("go/ssa rules on parse/add/memoizedResult/translatePositions/Error of every template instantiation and peg.peg.go: dominance of return-nil by the entry rule's success, dominance of maxToken stores by the strict-further and non-empty tests, cursor invariant of translatePositions decided with a ==/!= union-find over dominating branch facts, no-string-indexing rule",
+         "Decides verdict mapping, the furthest-first-token rule, that both offsets of the error are translated (cursor invariant) and that quoted text slices runes. Partial: the line/column arithmetic itself is value-level and not decided.",
+         "DESIGN.md §4 C11",
+         "Trusts go/ssa, the fact engine in pathfacts.go and the template instantiator; assumes C13's in-bounds invariant."),
+ "C05": ("go/ssa call-routing and value-shape rules on the printers of every AST-enabled template instantiation and peg.peg.go",
+         "Decides only two necessary conditions: quoted node text is the rune slice [begin:end] (no string is indexed anywhere in the runtime) and every printer prints AST() with the parser's own Buffer naming nodes by their own rule. The nesting algorithm of AST() is explicitly NOT decided (value-level).",
+         "DESIGN.md §4 C05",
+         "Partial claim; trusts go/ssa and the instantiator; assumes C03 (post-order token list)."),
 }
 
 NOT_APPLICABLE = {
